@@ -16,7 +16,7 @@ DOC_LINES = ['', 'text here', '#hash', '[br] x', ']x', ':param a: b', ':keyword 
              '* item', 'héllo ✓', 'see [1]', 'a :param **kwargs: b', ' ', 'trailing  ', '# # double', 'x ] y',
              '\ttab', ':param x1: desc', ':type x1: int', '.. note:: n', '   deeper', 'Ünï 𝒳', '[', ']', '#', ': colon',
              '@module not', 'NAME EXPECTFAIL', 'sep\u2028arated', 'nel\x85here', 'vt\x0bff\x0c']
-LEADERLESS_LINES = ['Plain text', 'another line', 'Zed :param a: b', 'x  spaced', 'é?']
+LEADERLESS_LINES = ['Plain text', 'another line', 'Zed :param a: b', 'x  spaced', 'é?', 'Resolves issue #12 here', 'See [1] and #2']
 BARE = ['a', 'b', 'x1', '_p_', 'Foo', 'bar_baz', 'é', 'v-1', '${v}', 'a\\;b', 'NAMEX', 'xEXPECTFAIL', 'name',
         'expectfail', '@V@', '<T>', 'a;b', '$<X:y>', '[x]', 'a\\ b', '\\"q', 'a\\"', '1', '-D', 'x=y', 'ı', 'p/q.r',
         '\\(', 'a\\#b', '$ENV{H}', 'args', 'self', 'COMMAND', 'ON', 'OFF', '_x_y', 'a]', ']', 'a[[b]]',
@@ -213,6 +213,14 @@ class Gen:
         n = g.randint(0, self.max_items if depth == 0 else max(1, self.max_items // 2))
         for j in range(n):
             it = self.item(self.pick_kind(depth, in_class, in_test), depth, in_class, in_test, first and j == 0)
+            if isinstance(it, dict) and it['k'] == 'cmd' and cname(it['call']) == 'set' and g.random() < 0.12:
+                # a look-alike: the same characters once the blanks are removed, but a different split into arguments
+                toks = [a[1] for a in it['call']['args'] if a[1][0] == 'b']
+                if len(toks) == len(it['call']['args']) and len(toks) >= 3:
+                    merged = toks[:-2] + [['b', toks[-2][1] + toks[-1][1]]]
+                    out.append(it)
+                    out.append(dict(k='cmd', doc=self.doc(4 * depth, force=True), call=self.call('set', merged, 4 * depth, after_doc=True)))
+                    continue
             if isinstance(it, dict) and it['k'] == 'decl' and g.random() < self.p_gap:
                 out += self.split_decl(it, depth, in_class)
             elif isinstance(it, dict) and it['k'] == 'decl' and self.malformed and g.random() < self.malformed:
